@@ -10,7 +10,7 @@ from ..loader import AnalysisError
 from .. import graph, consts
 from ..roles import node_calls
 from ..resolve import walk_scope
-from .common import fmt_facts, is_name, is_attr_of, keys_read, subscript_key
+from .common import fmt_facts, is_name, is_attr_of, keys_read, subscript_key, re_calls, re_call_problem
 
 EXPLANATION = (
     'Static rule conformance on checker.check_output / normalize / _check_match and the regexes they use: '
@@ -43,7 +43,7 @@ REQUIRED = {
 
 
 def run(ctx):
-    for fn in (r1_shortcut, r2_flag_table, r3_symmetry, r4_regex_facts):
+    for fn in (r1_shortcut, r2_flag_table, r3_symmetry, r4_regex_facts, r6_verdict_sources, r7_regex_call_shape):
         ctx.rep.rule(fn, ctx)
 
 
@@ -84,6 +84,85 @@ def r1_shortcut(ctx):
 def _resolves(ctx, f, call, qual):
     r = ctx.res.resolve_call(f, call)
     return r[0] == 'repo' and any(x.qualname == qual for x in r[1])
+
+
+# ---------------------------------------------------------------------------
+def _eq_of(e, a, b):
+    return isinstance(e, ast.Compare) and len(e.ops) == 1 and isinstance(e.ops[0], ast.Eq) and \
+        {x.id for x in (e.left, e.comparators[0]) if isinstance(x, ast.Name)} == {a, b}
+
+
+def verdict_sources(ctx, rule, only_ellipsis=False):
+    """every way check_output / _check_match can answer "matches" is one of the documented ones:
+    empty want (check disabled), equal texts, _check_match on the normalised pair, and inside _check_match
+    equal texts or the wildcard matcher under ELLIPSIS.  A `return True` under any other guard is an extra,
+    flag-independent way to pass."""
+    rep = ctx.rep
+    EM = 'xdoctest.checker._ellipsis_match'
+    for q in (CO, CM):
+        f = ctx.func(q)
+        g = ctx.cfg(f)
+        rd = ctx.rd(f)
+        dom = ctx.dom(g, g.entry)
+        params = [a.arg for a in f.node.args.args]
+        pg, pw = params[0], params[1]
+        rets = [n for n in g.nodes if n.kind == 'stmt' and isinstance(n.ast, ast.Return) and not n.dup]
+        rep.floor(rule, 'returns of %s' % q.rsplit('.', 1)[1], len(rets), 2)
+        for rn in rets:
+            v = rn.ast.value
+            facts = graph.guard_facts(dom, rn)
+
+            def allowed_true():
+                for fa in facts:
+                    if fa.polarity is True and _eq_of(fa.expr, pg, pw):
+                        return 'equal texts'
+                    if q == CO and fa.polarity is False and is_name(fa.expr, pw) and all(d.kind == 'param' for d in rd.at(fa.origin.attrs['test'], pw)):
+                        return 'empty want (nothing to check)'
+                if q == CM:
+                    has_key = any(canon_fact(fa) == ('key', 'ELLIPSIS', True) for fa in facts)
+                    has_em = any(fa.polarity is True and isinstance(fa.expr, ast.Call) and _resolves(ctx, f, fa.expr, EM) for fa in facts)
+                    if has_key and has_em:
+                        return 'wildcard match under ELLIPSIS'
+                return None
+            if v is None or (isinstance(v, ast.Constant) and not v.value):
+                continue
+            if isinstance(v, ast.Constant) and v.value is True:
+                why = allowed_true()
+                rep.ob(rule, ctx.loc(f, rn.ast), 'return True | %s' % fmt_facts(facts), why is not None,
+                       'positive verdict through a documented way: %s' % why if why else
+                       'a match is declared under a condition that is none of the documented ones (equal texts, empty want, wildcard match under ELLIPSIS): '
+                       'this verdict does not depend on the flags that are supposed to control it', anchor=q)
+                continue
+            if isinstance(v, ast.Call) and q == CO and _resolves(ctx, f, v, CM):
+                srcs = []
+                for i, a in enumerate(v.args[:2]):
+                    if isinstance(a, ast.Name):
+                        srcs += [(i, d) for d in rd.at(rn, a.id)]
+                ok = len(srcs) >= 2 and all(d.kind == 'unpack' and isinstance(d.value, tuple) and isinstance(d.value[1], ast.Call) and _resolves(ctx, f, d.value[1], NORM) and d.value[2] == i for (i, d) in srcs)
+                rep.ob(rule, ctx.loc(f, rn.ast), ctx.src(rn.ast), ok, 'the verdict is _check_match on the normalised pair (got, want in that order)' if ok else
+                       'the texts compared by _check_match are not the pair returned by normalize (in order)', anchor=q)
+                continue
+            if isinstance(v, ast.Compare) and _eq_of(v, pg, pw):
+                rep.ob(rule, ctx.loc(f, rn.ast), ctx.src(rn.ast), True, 'equality of the texts', nontrivial=False, anchor=q)
+                continue
+            raise AnalysisError('%s: unrecognised verdict expression `%s` in %s' % (rule, ctx.src(v), q))
+
+
+def r6_verdict_sources(ctx):
+    verdict_sources(ctx, 'C05.R6')
+
+
+def r7_regex_call_shape(ctx):
+    """no call into `re` on the comparison path binds a flag constant to count / maxsplit"""
+    rep = ctx.rep
+    n = 0
+    for modname in ('xdoctest.checker', 'xdoctest.utils.util_str'):
+        mod = ctx.prog.module(modname)
+        for c in re_calls(mod.tree):
+            n += 1
+            prob = re_call_problem(c)
+            rep.ob('C05.R7', ctx.mloc(mod, c), ctx.src(c, 120), prob is None, 'arguments bound to the intended parameters' if prob is None else prob, nontrivial=False, anchor=modname)
+    rep.floor('C05.R7', 'calls into re on the comparison path', n, 8)
 
 
 # ---------------------------------------------------------------------------
